@@ -15,7 +15,7 @@ EXPLANATION = (
     "target' = cond(count % interval == 0, policy, target) on the post-increment count, reset seeds target with the online policy; "
     "C10.5 SAC polyak tau*online + (1-tau)*target with (qf1,qf1_target)/(qf2,qf2_target) pairing and aligned write-back; C10.6 SAC "
     "actor/temperature gating by count % policy_frequency == 0, temperature only in the autotune case, write-back alignment of "
-    "sac_train's result tuple."
+    "sac_train's result tuple; SAC.reset seeds each target critic with its own online critic, the two online critics built from different keys."
 )
 ASSUMPTIONS = [
     "lax.scan runs the body once per row of xs; lax.cond / filter_cond select as documented",
@@ -149,6 +149,30 @@ def check_sac_gates(s, rule="C10.6", necessary=None):
                      detail=show(out[nm], maxlen=160), necessary_for="the temperature changes only when autotuning is on")
     if seen != {True, False}:
         raise AnalysisError(f"{con7}: expected both autotune cases")
+
+
+def check_sac_target_init(s, rule="C10.6", necessary=None):
+    """SAC.reset: each target critic starts as its own online critic (target_i == online_i as values), the two online critics are
+    distinct values (their keys differ), and the critic optimiser is initialised over the parameters of exactly these two critics.
+    Polyak averaging keeps (1 - tau)^n of the initial target: a target seeded with the other critic is not the average of its own."""
+    b = s.builder()
+    nz = Normalizer(b)
+    con = "SAC.reset"
+    loc = s.loc("SAC", "reset")
+    ps = live(s.paths(b, "SAC", "reset"))
+    if not ps:
+        raise AnalysisError(f"{con}: no returning path")
+    nec = necessary or "each target critic is the Polyak average of its own online critic from the first update on"
+    for p in ps:
+        f = fields(p.ret)
+        if not {"qf1", "qf2", "qf1_target", "qf2_target"} <= set(f):
+            raise AnalysisError(f"{con}: the returned state has no critic fields")
+        c = {k: nz.canon(f[k]) for k in ("qf1", "qf2", "qf1_target", "qf2_target")}
+        for i in ("1", "2"):
+            s.ob(rule, con, c[f"qf{i}_target"] == c[f"qf{i}"], f"qf{i}_target starts as the online critic qf{i}", loc, key=f"target-init-qf{i}",
+                 detail=show(f[f"qf{i}_target"], maxlen=200), necessary_for=nec)
+        s.ob(rule, con, c["qf1"] != c["qf2"], "the two online critics are built from different keys", loc, key="critics-distinct",
+             detail=show(f["qf2"], maxlen=200), necessary_for="the minimum over two critics is over two independently initialised estimators")
 
 
 def check(s):
@@ -299,6 +323,7 @@ out = eqx.combine(jax.tree.map(lambda o, t: self.tau * o + (1 - self.tau) * t, o
             s.ob("C10.6", conI, m.get(an) == ("attr", state, an), f"sac_train parameter `{an}` receives state.{an}", s.loc("SAC", "iteration"),
                  key=f"arg-{an}", detail=show(m.get(an, NONE), maxlen=100))
     check_sac_gates(s, "C10.6")
+    check_sac_target_init(s, "C10.6")
     # C10.7 configuration wiring: update interval, tau, policy_frequency, num_envs, num_steps, learning_starts ... are the configured ones
     from .util import ctor_wiring
     for cls in ("PPO", "A2C", "REINFORCE", "DQN", "SAC"):
